@@ -599,7 +599,8 @@ func (hp *HTTPProxy) directDomains(fn ProxyFunc) ProxyFunc {
 	}
 
 	return func(req *http.Request) (*url.URL, error) {
-		if hp.config.DirectDomains.Match(req.URL.Hostname()) {
+		// Domain names are case-insensitive, the rules are written in lower case.
+		if hp.config.DirectDomains.Match(strings.ToLower(req.URL.Hostname())) {
 			return nil, nil
 		}
 		return fn(req)
